@@ -21,7 +21,17 @@ use std::time::{Duration, Instant};
 
 const BUILD: &str = if cfg!(feature = "faulty") { "sim_cache_faulty" } else { "sim_cache_compiled" };
 
+/// Reactive effects are not part of what this engine decides: their tasks are dropped.
+struct DropTasks;
+
+impl any_spawner::CustomExecutor for DropTasks {
+    fn spawn(&self, _fut: any_spawner::PinnedFuture<()>) {}
+    fn spawn_local(&self, _fut: any_spawner::PinnedLocalFuture<()>) {}
+    fn poll_local(&self) {}
+}
+
 fn setup_process() {
+    let _ = any_spawner::Executor::init_custom_executor(DropTasks);
     run::install_panic_hook();
     sched::install_hook();
     #[cfg(feature = "faulty")]
